@@ -3,7 +3,7 @@
 EXTENDS Reader
 Cfg(kind, real, lsb, spf, fpf, nfiles, a, b) ==
   [kind |-> kind, real |-> real, lsb |-> lsb, spf |-> spf, fpf |-> fpf, nfiles |-> nfiles,
-   A |-> a, B |-> b, t0 |-> 100, per |-> 4,
+   A |-> a, B |-> b, t0 |-> 100, per |-> 4, blk |-> 0, ceil |-> FALSE,
    mask |-> [i \in 1..a |-> [j \in 1..b |-> lsb]]]
 \* BasebandReader(lower_sideband=<one flag per element>)
 Masked(c) == [c EXCEPT !.mask = [i \in 1..c.A |-> [j \in 1..c.B |-> (i + j) % 2 = 0]]]
@@ -11,6 +11,7 @@ Masked(c) == [c EXCEPT !.mask = [i \in 1..c.A |-> [j \in 1..c.B |-> (i + j) % 2 
 AllConfigs ==
   { Cfg("plain", FALSE, l, 2, 2, 1, 2, 1) : l \in BOOLEAN }          \* DADA / VDIF complex, 2 frames
   \cup { Cfg("plain", TRUE, l, 4, 2, 1, 1, 2) : l \in BOOLEAN }      \* VDIF real, 2 frames
+  \cup { Cfg("plain", TRUE, l, 3, 3, 1, 1, 2) : l \in BOOLEAN }      \* real, ODD raw count 9: still 4 samples
   \cup { Cfg("guppi", FALSE, l, 1, 2, 2, 2, 2) : l \in BOOLEAN }     \* GUPPI, 2 files x 2 frames
   \cup { Cfg("stokes", FALSE, l, 2, 1, 2, 2, 2) : l \in BOOLEAN }    \* DADA Stokes, 2 files
   \cup { Masked(Cfg("plain", FALSE, FALSE, 2, 2, 1, 2, 2)) }         \* per-element sideband flags
@@ -31,4 +32,10 @@ FT_Args == {<<0, 2>>, <<1, 2>>, <<2, 2>>, <<0, 4>>, <<3, 1>>, <<4, 0>>, <<3, 2>>
 \* negative model (one shared handle): the smallest instance that shows it
 N_Configs == { Cfg("plain", FALSE, FALSE, 2, 2, 1, 1, 1) }
 N_Args == {<<0, 2>>, <<2, 2>>}
+\* negative models of the real-sampled path: conversion in blocks of one output sample; length rounded up
+NB_Configs == { [Cfg("plain", TRUE, FALSE, 4, 2, 1, 1, 1) EXCEPT !.blk = 1] }
+NB_Args == {<<1, 2>>}
+NC_Configs == { [Cfg("plain", TRUE, FALSE, 3, 3, 1, 1, 1) EXCEPT !.ceil = TRUE] }
+NC_Args == {<<4, 1>>, <<0, 5>>}
+One == 1..1
 =============================================================================
